@@ -158,3 +158,114 @@ func onlyFeedsSameField(load *ssa.UnOp, field, pkg string) bool {
 	}
 	return ok(load, 0)
 }
+
+// ---------------------------------------------------------------------------------------------
+// G10: what initialisation puts into a configuration table, a settings change puts back
+
+// reviewed: additive writers whose loss after a settings change is not observable (reason)
+var reviewedReinitGaps = map[string]string{
+	"CFG/G10:IgnoreVarMap:InsertIngoreSystemModule": "hazard without a failing input: the names it inserts (math, string, print, …) are also resolved through GlobalConfig.SysVarMap / the system-tips tables, so undefined-variable diagnostics do not change after workspace/didChangeConfiguration (checked with findings/CFG-G10-system-modules-lost-on-settings-change, which passes)",
+}
+
+var ruleCfgG10 = &Rule{
+	Name:    "CFG/G10-reinit-parity",
+	NeedSSA: true,
+	Text:    "for every map field of common.GlobalConfig that the settings-change path (the workspace/didChangeConfiguration handler) can reset to an empty map: every function that only adds to that map (inserts without resetting it itself) and is reachable from the initialize handler is also reachable from the settings-change handler — otherwise a later settings change leaves the table without entries the start-up put there (identically whether given at start-up or by a later settings change)",
+	Run: func(c *Ctx) []Ob {
+		var obs []Ob
+		hs, err := c.Handlers()
+		if err != nil {
+			return []Ob{{Key: "CFG/G10:slots", Verdict: UNDECIDED, Note: err.Error()}}
+		}
+		var initH, chgH *ssa.Function
+		for _, h := range hs {
+			switch h.Method {
+			case "initialize":
+				initH = h.Fn
+			case "workspace/didChangeConfiguration":
+				chgH = h.Fn
+			}
+		}
+		if initH == nil || chgH == nil {
+			return []Ob{{Key: "CFG/G10:slots", Verdict: UNDECIDED, Note: "slot unresolved: initialize / workspace/didChangeConfiguration handlers"}}
+		}
+		_, initReach := reach(c.VTA(), []*ssa.Function{initH}, nil)
+		_, chgReach := reach(c.VTA(), []*ssa.Function{chgH}, nil)
+		commonPkgP := modPath + "/langserver/check/common"
+		resets := map[*types.Var][]*ssa.Function{}
+		writers := map[*types.Var][]*ssa.Function{}
+		isCfg := func(fa *ssa.FieldAddr) bool {
+			p, n := namedPkgName(fa.X.Type())
+			return p == commonPkgP && n == "GlobalConfig"
+		}
+		for _, f := range c.ModFns() {
+			seenR, seenW := map[*types.Var]bool{}, map[*types.Var]bool{}
+			for _, b := range f.Blocks {
+				for _, ins := range b.Instrs {
+					switch x := ins.(type) {
+					case *ssa.Store:
+						if fa, ok := x.Addr.(*ssa.FieldAddr); ok && isCfg(fa) {
+							if _, isMake := x.Val.(*ssa.MakeMap); isMake && !seenR[fieldOf(fa)] {
+								seenR[fieldOf(fa)] = true
+								resets[fieldOf(fa)] = append(resets[fieldOf(fa)], f)
+							}
+						}
+					case *ssa.MapUpdate:
+						if ld, ok := x.Map.(*ssa.UnOp); ok {
+							if fa, ok := ld.X.(*ssa.FieldAddr); ok && isCfg(fa) && !seenW[fieldOf(fa)] {
+								seenW[fieldOf(fa)] = true
+								writers[fieldOf(fa)] = append(writers[fieldOf(fa)], f)
+							}
+						}
+					}
+				}
+			}
+		}
+		var fields []*types.Var
+		for fv := range resets {
+			fields = append(fields, fv)
+		}
+		sort.Slice(fields, func(i, j int) bool { return fields[i].Name() < fields[j].Name() })
+		n := 0
+		for _, fv := range fields {
+			resetOnChange := false
+			for _, r := range resets[fv] {
+				if chgReach[r] {
+					resetOnChange = true
+				}
+			}
+			if !resetOnChange {
+				continue
+			}
+			ws := writers[fv]
+			sort.Slice(ws, func(i, j int) bool { return fnKey(ws[i]) < fnKey(ws[j]) })
+			for _, w := range ws {
+				if !initReach[w] {
+					continue
+				}
+				selfReset := false
+				for _, r := range resets[fv] {
+					if r == w {
+						selfReset = true // a function that rebuilds the table wholesale (reset + fill) in its own mode
+					}
+				}
+				if selfReset {
+					continue
+				}
+				n++
+				key := "CFG/G10:" + fv.Name() + ":" + w.Name()
+				if chgReach[w] {
+					obs = append(obs, Ob{Key: key, Site: c.Pos(w.Pos()), Verdict: OK})
+				} else if why, ok := reviewedReinitGaps[key]; ok {
+					obs = append(obs, Ob{Key: key, Site: c.Pos(w.Pos()), Verdict: OK, Note: "reviewed: " + why})
+				} else {
+					obs = append(obs, Ob{Key: key, Site: c.Pos(w.Pos()), Verdict: VIOLATION,
+						Note: fmt.Sprintf("GlobalConfig.%s is emptied on a settings change, and %s — which fills it during initialize — is not reachable from the settings-change handler: after workspace/didChangeConfiguration the table lacks those entries", fv.Name(), w.Name())})
+				}
+			}
+		}
+		c.Stats["config_tables_reset_on_change"] = n
+		obs = append(obs, floor("CFG/G10-reinit-parity", "init-time additive writers of tables that a settings change resets", n, 1))
+		return obs
+	},
+}
